@@ -796,6 +796,115 @@ func c15(c *Ctx) {
 		r.Check("header:split-sites", n >= 1, cp.Pos(), fmt.Sprintf("%d ':' split sites in constructPost", n))
 	})
 
+	c.Rule("C15.R9", "dynamic-header selection is anchored at tag boundaries: every 'name:value' that tagsMatch selects is a whole element of the tags key split at ',' and begins with a configured header name (a name found in the middle of another tag, or inside a value, must not select the series' request)", 3, func(r *Rule) {
+		tm := w.Func("", "tagsMatch")
+		if tm == nil || len(tm.Params) != 2 {
+			r.Unresolved("tagsMatch")
+			return
+		}
+		c.SawFunc(FuncName(tm))
+		isKeySplit := func(v ssa.Value) bool {
+			cl, ok := ptrOrigin(v).(*ssa.Call)
+			if !ok || !isCall(cl, "strings.Split") {
+				return false
+			}
+			sep, isS := constString(cl.Call.Args[1])
+			return isS && sep == "," && ptrOrigin(cl.Call.Args[0]) == ssa.Value(tm.Params[1])
+		}
+		// a whole element of the split key: split[i], the range value over the split, or the part before the next
+		// ',' cut off the (rest of the) key
+		var wholeTag func(v ssa.Value, d int) bool
+		wholeTag = func(v ssa.Value, d int) bool {
+			if d > 4 {
+				return false
+			}
+			switch x := ptrOrigin(v).(type) {
+			case *ssa.UnOp:
+				if ia, ok := x.X.(*ssa.IndexAddr); ok && x.Op == token.MUL {
+					return isKeySplit(ia.X)
+				}
+			case *ssa.Extract:
+				if nx, ok := x.Tuple.(*ssa.Next); ok {
+					if rg, ok := nx.Iter.(*ssa.Range); ok {
+						return x.Index == 2 && isKeySplit(rg.X)
+					}
+				}
+				if cc, ok := x.Tuple.(*ssa.Call); ok && isCall(cc, "strings.Cut") && x.Index == 0 {
+					sep, isS := constString(cc.Call.Args[1])
+					if !isS || sep != "," {
+						return false
+					}
+					// cut off the key itself or off the remainder of an earlier cut
+					var rest func(y ssa.Value, d2 int) bool
+					seen := map[ssa.Value]bool{}
+					rest = func(y ssa.Value, d2 int) bool {
+						if d2 > 4 || seen[y] {
+							return true
+						}
+						seen[y] = true
+						y = ptrOrigin(y)
+						if y == ssa.Value(tm.Params[1]) {
+							return true
+						}
+						if ph, ok := y.(*ssa.Phi); ok {
+							for _, e := range ph.Edges {
+								if !rest(e, d2+1) {
+									return false
+								}
+							}
+							return true
+						}
+						if ex, ok := y.(*ssa.Extract); ok && ex.Index == 1 {
+							if c2, ok := ex.Tuple.(*ssa.Call); ok && isCall(c2, "strings.Cut") {
+								s2, isS2 := constString(c2.Call.Args[1])
+								return isS2 && s2 == "," && rest(c2.Call.Args[0], d2+1)
+							}
+						}
+						return false
+					}
+					return rest(cc.Call.Args[0], 0)
+				}
+			}
+			return false
+		}
+		isName := func(v ssa.Value) bool {
+			switch x := ptrOrigin(v).(type) {
+			case *ssa.UnOp:
+				if ia, ok := x.X.(*ssa.IndexAddr); ok && x.Op == token.MUL {
+					return ptrOrigin(ia.X) == ssa.Value(tm.Params[0])
+				}
+			case *ssa.Extract:
+				if nx, ok := x.Tuple.(*ssa.Next); ok {
+					if rg, ok := nx.Iter.(*ssa.Range); ok {
+						return ptrOrigin(rg.X) == ssa.Value(tm.Params[0])
+					}
+				}
+			}
+			return false
+		}
+		n := 0
+		for _, cl := range callsTo(tm, "builtin append") {
+			call, ok := cl.(*ssa.Call)
+			if !ok || len(call.Call.Args) != 2 {
+				continue
+			}
+			if _, isStr := call.Type().Underlying().(*types.Slice).Elem().Underlying().(*types.Basic); !isStr {
+				continue
+			}
+			for _, el := range varargElems(call.Call.Args[1]) {
+				n++
+				r.Check("tagsMatch:selects-whole-tags", wholeTag(el, 0), call.Pos(), "the selected text "+exprString(el, 0)+" is a whole element of the tags key split at ','")
+				okP := holdsAtOrViaFlag(call.Block(), func(facts []canonCond) bool {
+					return callKnown(facts, func(pc *ssa.Call) bool {
+						return isCall(pc, "strings.HasPrefix") && ptrOrigin(pc.Call.Args[0]) == ptrOrigin(el) && isName(pc.Call.Args[1])
+					}, true)
+				})
+				r.Check("tagsMatch:selected-by-name-prefix", okP, call.Pos(), "selected only where strings.HasPrefix(tag, name) holds for a configured header name")
+			}
+		}
+		r.Check("tagsMatch:selection-sites", n >= 1, tm.Pos(), fmt.Sprintf("%d selection sites", n))
+	})
+
 	c.Rule("C15.R7", "request bodies do not alias pooled buffers (C14.R6)", 1, func(r *Rule) {
 		pooledEscapes(w, r, "pool-escape:")
 	})
@@ -1085,6 +1194,34 @@ func c20(c *Ctx) {
 					}
 				})
 				r.Check("Run:init-error-on-early-server-exit", okSel, cl.Pos(), "initError is called on the branch where the server reported an error (or exited) during start-up")
+				// the report is sent under a live context: not one whose cancel function has already been called on
+				// the way to this call (the POST would fail with "context canceled" before it is sent)
+				dead := ""
+				if len(cl.Common().Args) >= 2 {
+					cv := ptrOrigin(cl.Common().Args[1])
+					if ex, isEx := cv.(*ssa.Extract); isEx && ex.Index == 0 {
+						if mk, isCall := ex.Tuple.(*ssa.Call); isCall && strings.HasPrefix(calleeName(mk), "context.With") {
+							for _, ref := range referrers(mk) {
+								cf, ok := ref.(*ssa.Extract)
+								if !ok || cf.Index != 1 {
+									continue
+								}
+								for _, g := range WithAnon(run) {
+									eachInstr(g, func(in ssa.Instruction) {
+										ci, ok := in.(*ssa.Call)
+										if !ok || ptrOrigin(ci.Call.Value) != ssa.Value(cf) {
+											return
+										}
+										if g == run && (instrDominates(ci, cl) || reachableFrom(ci.Block())[cl.Block()]) {
+											dead = "cancelled at " + w.Pos(ci.Pos())
+										}
+									})
+								}
+							}
+						}
+					}
+				}
+				r.Check("Run:init-error-sent-under-live-context", dead == "", cl.Pos(), "the context given to initError has not been cancelled before the call "+dead)
 			}
 		}
 		r.Check("Run:init-error-site", n == 1, run.Pos(), fmt.Sprintf("%d initError call sites", n))
